@@ -26,6 +26,7 @@ CONSTANTS LimSizes,    \* payload sizes of the "lim" inputs
 VARIABLES ph, mode, n, first, b
 vars == <<ph, mode, n, first, b>>
 
+LongLens == <<255, 256, 257, 65535, 65536, 65537, 16777215>>
 Firsts == {<<129, 0>>, <<1>>, <<192>>, <<193, 1>>, <<160>> \o Rep(7, 32)}
 Bad    == <<129, 0>>                                   \* a single byte wrapped as a string
 RECURSIVE Fill(_)
@@ -64,5 +65,9 @@ Dump == PrintT(ToJson([mode |-> mode', claim |-> n',
                        pre  |-> IF mode' = "lim" THEN Hdr(192, n') \o first' ELSE b',
                        len  |-> Len(b'),
                        c1 |-> AllocC1, c2 |-> AllocC2, grow |-> AllocGrow,
+                       \* the length side of putint at the two- / three-byte boundary, lifted: for a
+                       \* payload of n bytes Enc is by definition Hdr(base, n) followed by the payload, so
+                       \* only the headers are printed; the driver builds the n-byte payloads itself
+                       hd |-> [i \in 1..Len(LongLens) |-> [n |-> LongLens[i], s |-> Hdr(128, LongLens[i]), l |-> Hdr(192, LongLens[i])]],
                        ty |-> [nm \in Names |-> Run(nm, b', mode')]]))
 ================================================================================
